@@ -22,107 +22,12 @@ EXPLANATION = (
 )
 
 
-def _walk_edges_ok(loop, func, sym, nullables, allow_none=True):
-    """(w1) In the CFG of `func`, no path from the body entry of `loop` back to the loop head avoids every edge that
-    establishes `sym in nullables` (or `sym is None`).  Returns (ok, offending path lines)."""
-    g = CFG(func)
-    head = g.node_of(loop)
-    if head is None:
-        return False, []
-    body_entry = next((s for s, lab in head.succ if lab == "iter"), None)
-    if body_entry is None:
-        return False, []
-
-    def confirming(label):
-        if not (isinstance(label, tuple) and label[0] == "test"):
-            return False
-        for e, pol in split(label[1], label[2]):
-            t = norm(e)
-            if (t == f"{sym} in {nullables}" and pol) or (t == f"{sym} not in {nullables}" and not pol):
-                return True
-            if allow_none and ((t == f"{sym} is None" and pol) or (t == f"{sym} is not None" and not pol)):
-                return True
-        return False
-    # search from body entry to head without using confirming edges, staying inside the loop body
-    inside = {id(x) for x in ast.walk(loop)}
-    seen = {body_entry.id: None}
-    work = [body_entry]
-    while work:
-        n = work.pop()
-        if n is head:
-            path = []
-            c = n
-            while c is not None:
-                path.append(getattr(c.ast, "lineno", 0))
-                c = seen[c.id]
-            return False, list(reversed(path))
-        for s, lab in n.succ:
-            if confirming(lab):
-                continue
-            if s is not head and (s.ast is None or id(s.ast) not in inside):
-                continue
-            if s.id not in seen:
-                seen[s.id] = n
-                work.append(s)
-    return True, []
 
 
-def _breaks_justified(cx, rule, loop, sym, nullables, terminals, what):
-    """(w5) the walk stops only at a symbol known to be non-nullable (or a terminal)."""
-    n = 0
-    for b in ast.walk(loop):
-        if isinstance(b, ast.Break) and enclosing_loops(b) and enclosing_loops(b)[0] is loop:
-            n += 1
-            fs = {(norm(e), pol) for e, pol in facts(b, stop=loop)}
-            ok = (f"{sym} not in {nullables}", True) in fs or (f"{sym} in {nullables}", False) in fs or (f"{sym} in {terminals}", True) in fs
-            cx.ob(rule, b, ok, f"{what} walk stops only at a non-nullable symbol" if ok else
-                  f"{what} walk stops although the current symbol may be nullable: symbols behind a nullable prefix are never looked at (sets too small)")
-    return n
 
 
-def _merges(loop, targets):
-    """Statements in the loop body that merge something into one of `targets` (text prefixes)."""
-    out = []
-    for st in ast.walk(loop):
-        if isinstance(st, ast.Expr) and isinstance(st.value, ast.Call) and isinstance(st.value.func, ast.Attribute) and st.value.func.attr in ("add", "update"):
-            if any(norm(st.value.func.value) == t or norm(st.value.func.value).startswith(t + "[") for t in targets):
-                out.append(st)
-        if isinstance(st, ast.AugAssign) and isinstance(st.op, ast.BitOr) and any(norm(st.target) == t or norm(st.target).startswith(t + "[") for t in targets):
-            out.append(st)
-    return out
 
 
-def _must_merge(loop, func, merges, sym, targets=()):
-    """(w2) every path through one iteration (to the head, to a break target or out of the loop) passes a merge,
-    except the `sym is None` marker path."""
-    g = CFG(func)
-    head = g.node_of(loop)
-    body_entry = next((s for s, lab in head.succ if lab == "iter"), None)
-    mids = {g.node_of(m).id for m in merges if g.node_of(m) is not None}
-    inside = {id(x) for x in ast.walk(loop)} - {id(x) for s in loop.orelse for x in ast.walk(s)}
-    seen = {body_entry.id}
-    work = [body_entry]
-    if body_entry.id in mids:
-        return True
-    while work:
-        n = work.pop()
-        for s, lab in n.succ:
-            if isinstance(lab, tuple) and lab[0] == "test" and any((norm(e) == f"{sym} is None" and pol) for e, pol in split(lab[1], lab[2])):
-                continue
-            if isinstance(lab, tuple) and lab[0] == "test" and any(
-                    (norm(e) in [f"{sym} in {t}" for t in targets] and pol) or (norm(e) in [f"{sym} not in {t}" for t in targets] and not pol)
-                    for e, pol in split(lab[1], lab[2])):
-                continue      # already a member of the target set: nothing to contribute
-            if lab in ("may-raise", "except-unmatched", "raise"):
-                continue
-            if s.id in mids:
-                continue
-            if s is head or s.ast is None or id(s.ast) not in inside:
-                return False      # left the iteration without a merge
-            if s.id not in seen:
-                seen.add(s.id)
-                work.append(s)
-    return True
 
 
 def run(cx):
@@ -180,37 +85,37 @@ def run(cx):
     cx.ob("R02a", rets[0] if rets else nul, ok, "the empty-production marker None is removed and the fixpoint set returned" if ok else "returned nullable set / removal of the None marker altered")
 
     # ------------------------------------------------------------------ R02b
-    walks = [l for l in walk_local(first) if isinstance(l, ast.For) and norm(l.iter).endswith(".production")]
-    cx.need(len(walks) == 1, "R02b", first, "one production walk expected in FIRST")
-    w = walks[0]
-    s = norm(w.target)
     nullables = params(first)[-1]
     terminals = params(first)[2]
-    ok, path = _walk_edges_ok(w, first, s, nullables)
-    cx.ob("R02b", w, ok, "FIRST walk goes past a symbol only when it is nullable" if ok else f"FIRST walk can continue behind a non-nullable symbol (path lines {path})", stmt="FIRST walk: w1")
-    outer = [l for l in enclosing_loops(w) if isinstance(l, ast.For)]
-    owner_loop = next((l for l in outer if norm(l.iter).endswith(".items()")), None)
-    cx.need(owner_loop is not None, "R02b", first, "loop over the FIRST sets")
+    owner_loops = [l for l in walk_local(first) if isinstance(l, ast.For) and norm(l.iter).endswith(".items()") and isinstance(l.target, ast.Tuple) and len(l.target.elts) == 2]
+    cx.need(len(owner_loops) == 1, "R02b", first, "loop over the FIRST sets")
+    owner_loop = owner_loops[0]
     owner, owner_set = norm(owner_loop.target.elts[0]), norm(owner_loop.target.elts[1])
     fsets = norm(owner_loop.iter)[: -len(".items()")]
-    ms = _merges(w, [owner_set, f"{fsets}[{owner}]"])
-    mm = _must_merge(w, first, ms, s, [owner_set, f"{fsets}[{owner}]"])
-    cx.ob("R02b", w, mm, "every visited symbol contributes before the walk leaves it" if mm else "a visited symbol can be skipped without contributing to FIRST", stmt="FIRST walk: w2")
-    for m in ms:
-        call = m.value if isinstance(m, ast.Expr) else None
-        fsm = {(norm(e), pol) for e, pol in facts(m)}
-        if call is not None and call.func.attr == "add":
-            ok = norm(call.args[0]) == s and (f"{s} in {terminals}", True) in fsm
-            cx.ob("R02b", m, ok, "a terminal contributes itself" if ok else "`add` in FIRST is not `add(symbol)` under `symbol in terminals`")
-        else:
-            src = norm(call.args[0]) if call is not None else norm(m.value)
-            ok = src == f"{fsets}[{s}]" and (f"{s} in {terminals}", False) in fsm
-            cx.ob("R02b", m, ok, "a non-terminal contributes its FIRST set" if ok else f"FIRST merges {src} (expected FIRST of the current symbol, for non-terminals)")
+    from sa import walks as _walks
+    try:
+        wk1 = _walks.locate(first, repo.modules[REL], lambda t: t.endswith(".production"), within=owner_loop)
+        summ1 = _walks.summarize(wk1["loop"], {"terminals": {terminals}, "nullables": {nullables}}, wk1["rename"])
+    except _walks.Unknown as e:
+        raise AnalysisError("R02b", f"{REL}::_calc_first_sets", f"FIRST walk not recognised ({e})")
+    w = wk1["loop"]
+    s = norm(w.target)
+    # the accumulator may be spelled as the loop's set variable or as FIRST[owner]
+    for alt in (f"{fsets}[{owner}]",):
+        for k_, ps_ in summ1.per_class.items():
+            if ps_:
+                summ1.per_class[k_] = [_walks.Path([(e[0], owner_set if e[1] == alt else e[1], e[2]) for e in p_.effects], p_.how,
+                                                   [((c[0].replace(alt, owner_set)), c[1]) for c in p_.conds], p_.value) for p_ in ps_]
+        summ1.exhausted = tuple((e[0], owner_set if e[1] == alt else e[1], e[2]) for e in summ1.exhausted)
+        summ1.after_break = tuple((e[0], owner_set if e[1] == alt else e[1], e[2]) for e in summ1.after_break)
+    check_walk(cx, "R02b", "FIRST", summ1, owner_set,
+               {"T": ([("add", owner_set, "<sym>")], "stop"), "NN": ([("merge", owner_set, f"{fsets}[<sym>]")], "next"), "NX": ([("merge", owner_set, f"{fsets}[<sym>]")], "stop"),
+                "NONE": ([], "next")},
+               [], none_may_occur=False)
     ok = norm(w.iter) in (f"prod_r.production",) or norm(w.iter).endswith(".production")
     pl = [l for l in enclosing_loops(w) if isinstance(l, ast.For) and l is not owner_loop]
     ok = ok and len(pl) == 1 and norm(pl[0].iter) in (f"{params(first)[1]}[{owner}]",)
     cx.ob("R02b", w, ok, "all productions of the owner are walked" if ok else "FIRST does not walk every production of the owning symbol", stmt="FIRST walk: productions")
-    cx.guard(_breaks_justified, cx, "R02b", w, s, nullables, terminals, "FIRST")
     cx.guard(_fixpoint_loop, cx, "R02b", first, owner_loop, "FIRST")
 
     # ------------------------------------------------------------------ R02c
@@ -222,49 +127,51 @@ def run(cx):
     cx.need(len(own_loops) >= 1, "R02c", follow, "loop over the grammar")
     ol = own_loops[0]
     owner = norm(ol.target.elts[0])
-    inner_walks = [l for l in ast.walk(ol) if isinstance(l, ast.For) and "production[" in norm(l.iter)]
-    cx.need(len(inner_walks) == 1, "R02c", follow, "walk over the symbols following the current one")
-    iw = inner_walks[0]
-    nxt = norm(iw.target)
-    pos_loop = next((l for l in enclosing_loops(iw) if isinstance(l, ast.For) and call_name(l.iter) == "enumerate"), None)
-    cx.need(pos_loop is not None, "R02c", follow, "enumerate loop over the production")
+    import re as _re
+    pos_loops = [l for l in ast.walk(ol) if isinstance(l, ast.For) and call_name(l.iter) == "enumerate" and norm(l.iter).endswith(".production)")]
+    cx.need(len(pos_loops) == 1 and isinstance(pos_loops[0].target, ast.Tuple) and len(pos_loops[0].target.elts) == 2, "R02c", follow, "enumerate loop over the production")
+    pos_loop = pos_loops[0]
     idx, cur = norm(pos_loop.target.elts[0]), norm(pos_loop.target.elts[1])
-    ok = norm(iw.iter).replace(" ", "") == f"prod_r.production[{idx}+1:]".replace(" ", "") or norm(iw.iter).replace(" ", "").endswith(f".production[{idx}+1:]")
-    cx.ob("R02c", iw, ok, "the walk covers exactly the symbols after the current one" if ok else f"FOLLOW walk iterates {norm(iw.iter)}")
-    fsets_name = "follow_sets"
-    fs_defs = [st for st in follow.body if isinstance(st, ast.Assign) and isinstance(st.value, ast.DictComp) and "set()" in norm(st.value)]
-    ok1, path = _walk_edges_ok(iw, follow, nxt, nullables, allow_none=False)
-    cx.ob("R02c", iw, ok1, "FOLLOW walk goes past a following symbol only when it is nullable" if ok1 else f"FOLLOW walk continues behind a non-nullable symbol (path lines {path})", stmt="FOLLOW walk: w1")
-    ms = _merges(iw, [f"follow_sets[{cur}]"])
-    okm = _must_merge(iw, follow, ms, nxt)
-    cx.ob("R02c", iw, okm, "every following symbol contributes before the walk leaves it" if okm else "a following symbol can be skipped without contributing", stmt="FOLLOW walk: w2")
-    for m in ms:
-        fsm = {(norm(e), pol) for e, pol in facts(m)}
-        if isinstance(m, ast.Expr) and m.value.func.attr == "add":
-            ok = norm(m.value.args[0]) == nxt and (f"{nxt} in {terminals}", True) in fsm
-            cx.ob("R02c", m, ok, "a following terminal is added" if ok else "`add` in FOLLOW is not the following terminal itself")
-        else:
-            src = norm(m.value) if isinstance(m, ast.AugAssign) else norm(m.value.args[0])
-            ok = src == f"{fsets_p}[{nxt}]" and (f"{nxt} in {terminals}", False) in fsm
-            cx.ob("R02c", m, ok, "FIRST of a following non-terminal is added" if ok else f"FOLLOW merges {src} (expected FIRST of the following symbol)")
-    cx.guard(_breaks_justified, cx, "R02c", iw, nxt, nullables, terminals, "FOLLOW")
+    tail_pat = _re.compile(r".*\.production\[" + _re.escape(idx) + r" ?\+ ?1:\]$")
+    from sa import walks
+    try:
+        wk = walks.locate(follow, repo.modules[REL], lambda t: bool(_re.search(r"\.production\[.*:.*\]$", t)), within=pos_loop)
+        summ = walks.summarize(wk["loop"], {"terminals": {terminals}, "nullables": {nullables}}, wk["rename"])
+        if wk["call"] is not None and wk["target"] is None:
+            walks.attach_caller_branch(summ, wk["call"])
+    except walks.Unknown as e:
+        raise AnalysisError("R02c", f"{REL}::_calc_follow_sets", f"walk over the symbols following the current one not recognised ({e})")
+    iw = wk["loop"]
+    it_txt = walks._rn(norm(iw.iter), None, wk["rename"]) if wk["call"] is not None else norm(iw.iter)
+    ok = bool(tail_pat.match(it_txt.replace("  ", " ")))
+    cx.ob("R02c", iw, ok, "the walk covers exactly the symbols after the current one" if ok else f"FOLLOW walk iterates {it_txt}")
+    acc = f"follow_sets[{cur}]"
+    deps_recv = f"follows_deps[{cur}]"
+    check_walk(cx, "R02c", "FOLLOW", summ, acc,
+               {"T": ([("add", acc, "<sym>")], "stop"), "NN": ([("merge", acc, f"{fsets_p}[<sym>]")], "next"), "NX": ([("merge", acc, f"{fsets_p}[<sym>]")], "stop"),
+                "NONE": ([], "next")},
+               [], none_may_occur=False)
     # terminals have no FOLLOW: skipped
     sk = any(isinstance(s, ast.If) and norm(s.test) == f"{cur} in {terminals}" and any(isinstance(x, ast.Continue) for x in s.body) for s in pos_loop.body)
     cx.ob("R02c", pos_loop, sk, "terminals are skipped as current symbol" if sk else "terminal symbols are not skipped in the FOLLOW position loop", stmt="FOLLOW: skip terminals")
-    # inclusion edges
-    dep_sites = [c for c in walk_local(follow) if isinstance(c, ast.Call) and call_name(c) in ("add", "update") and norm(c.func.value).startswith("follows_deps[")]
-    tail = [c for c in dep_sites if in_loop_orelse(enclosing_stmt(c), iw)]
-    cx.ob("R02c", iw, bool(tail), "the all-nullable continuation records FOLLOW(symbol) >= FOLLOW(owner)" if tail else
+    # inclusion edges FOLLOW(symbol) >= FOLLOW(owner): recorded exactly when the walk ran to its end
+    def _dep(effs):
+        return [e for e in effs if e[1].startswith("follows_deps[")]
+    dep_sites = [c for c in ast.walk(follow) if isinstance(c, ast.Call) and call_name(c) in ("add", "update") and norm(c.func.value).startswith("follows_deps[")]
+    ex_dep = _dep(summ.exhausted)
+    cx.ob("R02c", iw, bool(ex_dep), "the all-nullable continuation records FOLLOW(symbol) >= FOLLOW(owner)" if ex_dep else
           "no FOLLOW-inclusion edge is recorded when everything after a symbol is nullable: FOLLOW sets are too small and table entries are missing", stmt="FOLLOW walk: tail edge")
-    for c in dep_sites:
-        st = enclosing_stmt(c)
-        x = norm(c.func.value)[len("follows_deps["):-1]
-        y = norm(c.args[0])
-        in_else = in_loop_orelse(st, iw) and parent(st) is iw
-        ok = x == cur and y == owner and in_else and call_name(c) == "add"
-        cx.ob("R02c", c, ok, "FOLLOW(owner) flows into FOLLOW(symbol) only when everything after the symbol is nullable" if ok else
-              (f"inclusion edge FOLLOW({x}) <- FOLLOW({y}) is not justified: the source must be the owner of the production "
-               f"('{owner}') and the site the all-nullable continuation of the walk; a sibling's FOLLOW over-approximates and makes LL(1) grammars look ambiguous"))
+    early = [e for ps_ in summ.per_class.values() if ps_ for p_ in ps_ for e in _dep(p_.effects)] + ([] if not any(p_.how == "break" for ps_ in summ.per_class.values() if ps_ for p_ in ps_) else _dep(summ.after_break))
+    for e in ex_dep:
+        ok = e == ("add", deps_recv, owner)
+        cx.ob("R02c", iw, ok, "FOLLOW(owner) flows into FOLLOW(symbol) only when everything after the symbol is nullable" if ok else
+              (f"inclusion edge {e[1]} <- {e[2]} is not justified: the source must be the owner of the production "
+               f"('{owner}') and the target the current symbol; a sibling's FOLLOW over-approximates and makes LL(1) grammars look ambiguous"), stmt=f"edge {e[1]} <- {e[2]}")
+    for e in early:
+        cx.ob("R02c", iw, False, f"inclusion edge {e[1]} <- {e[2]} is recorded although a non-nullable symbol follows: FOLLOW sets too large (LL(1) grammars look ambiguous)", stmt=f"early edge {e[1]} <- {e[2]}")
+    accounted = len(ex_dep) + len(early)
+    cx.need(len(dep_sites) == len({(e[1], e[2]) for e in ex_dep + early}) or len(dep_sites) == accounted, "R02c", follow,
+            f"{len(dep_sites)} site(s) record FOLLOW inclusion edges, {accounted} of them explained by the walk")
     # $END$ seed
     seeds = [c for c in walk_local(follow) if isinstance(c, ast.Call) and call_name(c) == "add" and norm(c.func.value) == f"follow_sets[{start_p}]"]
     ok = len(seeds) == 1 and norm(seeds[0].args[0]).endswith("_END_TOKEN_NAME") and parent(enclosing_stmt(seeds[0])) is follow
@@ -303,34 +210,22 @@ def run(cx):
     ol = next((l for l in table.body if isinstance(l, ast.For) and ".items()" in norm(l.iter)), None)
     cx.need(ol is not None, "R02d", table, "loop over the grammar")
     owner = norm(ol.target.elts[0])
-    tw = [l for l in ast.walk(ol) if isinstance(l, ast.For) and norm(l.iter).endswith(".production")]
-    cx.need(len(tw) == 1, "R02d", table, "production walk")
-    w = tw[0]
-    s = norm(w.target)
-    acc_names = [norm(st.targets[0]) for st in ast.walk(ol) if isinstance(st, ast.Assign) and norm(st.value) == "set()"]
-    cx.need(len(acc_names) == 1, "R02d", table, "predict-set accumulator")
-    acc = acc_names[0]
-    ok1, path = _walk_edges_ok(w, table, s, nullables)
-    cx.ob("R02d", w, ok1, "predict walk goes past a symbol only when it is nullable" if ok1 else f"predict walk continues behind a non-nullable symbol (path lines {path})", stmt="table walk: w1")
-    ms = [m for m in _merges(w, [acc]) if not in_loop_orelse(m, w)]
-    okm = _must_merge(w, table, ms, s)
-    cx.ob("R02d", w, okm, "every visited symbol contributes before the walk leaves it" if okm else "a visited symbol can be skipped without contributing to the predict set", stmt="table walk: w2")
-    cx.guard(_breaks_justified, cx, "R02d", w, s, nullables, terminals, "predict")
-    first_name = None
-    for m in ms:
-        fsm = {(norm(e), pol) for e, pol in facts(m)}
-        if isinstance(m, ast.Expr) and m.value.func.attr == "add":
-            ok = norm(m.value.args[0]) == s and (f"{s} in {terminals}", True) in fsm
-            cx.ob("R02d", m, ok, "a terminal predicts itself" if ok else "`add` in the predict walk is not the terminal itself")
-        else:
-            src = norm(m.value) if isinstance(m, ast.AugAssign) else norm(m.value.args[0])
-            ok = src.endswith(f"[{s}]") and "first" in src and (f"{s} in {terminals}", False) in fsm
-            first_name = src.split("[")[0]
-            cx.ob("R02d", m, ok, "a non-terminal contributes its FIRST set" if ok else f"predict walk merges {src} (expected FIRST of the current symbol)")
-    els = [m for m in _merges(w, [acc]) if in_loop_orelse(m, w)]
-    ok = len(els) == 1 and (norm(els[0].value) if isinstance(els[0], ast.AugAssign) else norm(els[0].value.args[0])) == f"follow_sets[{owner}]"
-    cx.ob("R02d", els[0] if els else w, ok, "when the whole production is nullable FOLLOW of the owner is added" if ok else
-          "the all-nullable continuation does not add FOLLOW(owner of the production)")
+    from sa import walks
+    try:
+        wk = walks.locate(table, repo.modules[REL], lambda t: t.endswith(".production"), within=ol)
+        apps0 = [c for c in ast.walk(ol) if isinstance(c, ast.Call) and call_name(c) == "append" and norm(c.func.value).startswith("parse_table[")]
+        cx.need(len(apps0) == 1 and enclosing_loops(apps0[0]), "R02d", table, "one `parse_table[..].append(..)` inside a loop over the predicted tokens")
+        acc = norm(enclosing_loops(apps0[0])[0].iter)
+        summ = walks.summarize(wk["loop"], {"terminals": {terminals}, "nullables": {nullables}}, wk["rename"])
+    except walks.Unknown as e:
+        raise AnalysisError("R02d", f"{REL}::{table.name}", f"production walk not recognised ({e})")
+    w = wk["loop"]
+    if wk["call"] is not None:
+        cx.note(f"R02d: the predict walk is in {wk['host'].name}, called from {table.name}; names translated {wk['rename']}")
+    check_walk(cx, "R02d", "predict", summ, acc,
+               {"T": ([("add", acc, "<sym>")], "stop"), "NN": ([("merge", acc, "first_sets[<sym>]")], "next"), "NX": ([("merge", acc, "first_sets[<sym>]")], "stop"),
+                "NONE": ([], "next")},
+               [("merge", acc, f"follow_sets[{owner}]")], none_may_occur=True)
     # definitions of the two sets used
     d1 = [norm(v) for _, v in assignments(table, "first_sets") if v is not None]
     d2 = [norm(v) for _, v in assignments(table, "follow_sets") if v is not None]
@@ -345,7 +240,7 @@ def run(cx):
         key = c.func.value.slice
         lp = enclosing_loops(c)[0]
         ok = isinstance(key, ast.Tuple) and len(key.elts) == 2 and norm(key.elts[0]) == owner and norm(key.elts[1]) == norm(lp.target) and norm(lp.iter) == acc and \
-            norm(c.args[0]) == norm(next(l for l in enclosing_loops(w) if l is not ol).target)
+            norm(c.args[0]) == norm(next(l for l in ast.walk(ol) if isinstance(l, ast.For) and norm(l.iter) == norm(ol.target.elts[1])).target)
         key_shape = ("symbol", "token")
     cx.ob("R02d", apps[0] if apps else table, ok, "every predicted token gets the production under key (owner, token)" if ok else "table entries are not parse_table[(owner, token)].append(production) for each predicted token")
     srt = [c for c in walk_local(table) if isinstance(c, ast.Call) and call_name(c) == "sort"]
@@ -383,6 +278,66 @@ def run(cx):
     ok = len(rets) == 1 and norm(rets[0].value) in ("any((len(prods) != 1 for prods in self.parse_table.values()))", "any(len(prods) != 1 for prods in self.parse_table.values())",
                                                      "any((len(prods) > 1 for prods in self.parse_table.values()))")
     cx.ob("R02f", rets[0] if rets else amb, ok, "ambiguous iff some table entry does not have exactly one alternative" if ok else "is_ambiguous does not test every entry for a single alternative")
+
+
+def check_walk(cx, rule, what, summ, acc, expect, exhausted, none_may_occur):
+    """Compare a walk summary (sa.walks) with the expected contribution / continuation table.  Effects on other receivers than
+    `acc` are ignored here.  A deviation built from recognised effects is refuted; unrecognised path conditions are undecided."""
+    w = summ.loop
+
+    def mine(effs):
+        return [e for e in effs if e[1] == acc]
+
+    def show(effs):
+        return ", ".join(f"{e[1]}.{e[0]}({e[2]})" for e in effs) or "nothing"
+    names = {"T": "a terminal", "NN": "a nullable non-terminal", "NX": "a non-nullable non-terminal", "NONE": "the empty-production marker"}
+    for k in ("NONE", "T", "NN", "NX"):
+        paths = summ.per_class.get(k)
+        if paths is None:
+            cx.need(not none_may_occur, rule, w, f"{what} walk: behaviour for the empty-production marker is not decided")
+            continue
+        want_eff, want_how = expect[k]
+        for i, p_ in enumerate(paths):
+            # the only path conditions accepted: "already in the accumulator" (change detection)
+            odd = [c for c in p_.conds if not (c[0] in (f"<sym> in {acc}",) or c[0].startswith("len(") )]
+            cx.need(not odd, rule, w, f"{what} walk: for {names[k]} the behaviour depends on `{odd[0][0] if odd else ''}`")
+            got = mine(p_.effects)
+            how = "next" if p_.how == "next" else "stop" if p_.how in ("break", "return") else p_.how
+            present = (f"<sym> in {acc}", True) in p_.conds
+            eff_ok = got == list(want_eff) or (not got and present and len(want_eff) == 1 and want_eff[0][0] == "add")
+            if how == "raise":
+                continue
+            tag = f"{what} walk [{k}#{i}]"
+            if not eff_ok:
+                if not got:
+                    cx.ob(rule, w, False, f"{names[k]} can be passed without contributing to {acc} (expected {show(want_eff)}): the set is too small", stmt=tag + " contribution")
+                else:
+                    cx.ob(rule, w, False, f"for {names[k]} the walk does {show(got)} (expected {show(want_eff)})", stmt=tag + " contribution")
+            else:
+                cx.ob(rule, w, True, f"{names[k]} contributes {show(want_eff)}", stmt=tag + " contribution")
+            if how != want_how:
+                msg = (f"the {what} walk continues behind {names[k]}: symbols behind it are taken into account although it cannot be empty (sets too large, LL(1) grammars look ambiguous)"
+                       if want_how == "stop" else
+                       f"the {what} walk stops at {names[k]}: symbols behind a nullable prefix are never looked at (sets too small)")
+                cx.ob(rule, w, False, msg, stmt=tag + " continuation")
+            else:
+                cx.ob(rule, w, True, f"after {names[k]} the walk {'stops' if how == 'stop' else 'goes on'}", stmt=tag + " continuation")
+            if p_.how == "return" and not summ.result_is_flag:
+                v = p_.value
+                from sa.walks import returned_text
+                okv = v is not None and returned_text(v, summ) == acc
+                cx.ob(rule, w, okv, "the helper returns the accumulated set" if okv else "the helper returns something else than the accumulated set", stmt=tag + " result")
+    stops_by_break = any(p_.how == "break" for ps_ in summ.per_class.values() if ps_ for p_ in ps_)
+    ex = mine(summ.exhausted)
+    nested = [e for e in ex if e[0].startswith("nested:")]
+    cx.need(not nested, rule, w, f"{what} walk: conditional update of {acc} after the walk")
+    ok = ex == list(exhausted)
+    cx.ob(rule, w, ok, f"when every symbol can be empty: {show(exhausted)}" if ok else
+          f"when every symbol of the walk can be empty the code does {show(ex)}, expected {show(exhausted)}", stmt=f"{what} walk: exhausted")
+    if stops_by_break:
+        ab = mine(summ.after_break)
+        ok = not ab
+        cx.ob(rule, w, ok, "nothing is added after a stop" if ok else f"{show(ab)} also happens when the walk stopped at a non-nullable symbol (sets too large)", stmt=f"{what} walk: after stop")
 
 
 def _fixpoint_loop(cx, rule, func, inner, what):
